@@ -3,6 +3,7 @@ package redis
 import (
 	"errors"
 	"net"
+	"sync"
 )
 
 // Stub network for lifecycle harnesses: net.Listen is redirected here by the engine
@@ -12,6 +13,7 @@ var errAddrInUse = errors.New("bind: address already in use")
 var errListenerClosed = errors.New("use of closed network connection")
 
 type vlistener struct {
+	mu      sync.Mutex // a real listener is safe for concurrent use
 	addr    string
 	closed  bool
 	queue   []net.Conn
@@ -36,29 +38,37 @@ func (l *vlistener) Accept() (net.Conn, error) {
 		if vsymFlag(&l.closed) {
 			return nil, errListenerClosed
 		}
+		l.mu.Lock()
 		if len(l.queue) > 0 {
 			c := l.queue[0]
 			l.queue = l.queue[1:]
 			l.accepts++
+			l.mu.Unlock()
 			return c, nil
 		}
 		l.wake = false
 		l.waiting++
+		l.mu.Unlock()
 		vsymAwait(&l.wake)
+		l.mu.Lock()
 		l.waiting--
+		l.mu.Unlock()
 	}
 }
 
 func (l *vlistener) Close() error {
-	if l.closed {
+	if vsymFlag(&l.closed) {
 		return errListenerClosed
 	}
 	vsymSignal(&l.closed)
 	// connections still waiting in the accept queue are reset, as the kernel does
-	for _, c := range l.queue {
+	l.mu.Lock()
+	q := l.queue
+	l.queue = nil
+	l.mu.Unlock()
+	for _, c := range q {
 		c.Close()
 	}
-	l.queue = nil
 	vsymSignal(&l.wake)
 	return nil
 }
@@ -68,10 +78,12 @@ func (l *vlistener) Addr() net.Addr { return vaddr{} }
 // vDial hands a client connection to the listener bound to addr.
 func vDial(addr string, c net.Conn) bool {
 	l, ok := vPorts[addr]
-	if !ok || l.closed {
+	if !ok || vsymFlag(&l.closed) {
 		return false
 	}
+	l.mu.Lock()
 	l.queue = append(l.queue, c)
+	l.mu.Unlock()
 	vsymSignal(&l.wake)
 	return true
 }
